@@ -271,9 +271,24 @@ def main():
     except Infra as e:
         print('infrastructure:', e, file=sys.stderr)
         return 2
-    except Exception:
-        traceback.print_exc()
-        return 2
+    except Exception as e:
+        # an exception raised INSIDE the repository's code on an input the check generated is a failing input (the implementation does not
+        # complete on a legal input), never an infrastructure error; anything raised by the harness itself is infrastructure (exit 2)
+        tb = traceback.extract_tb(e.__traceback__)
+        root = os.path.realpath(common.REPO) + os.sep
+        inside = [f for f in tb if os.path.realpath(f.filename).startswith(root)]
+        if not inside:
+            traceback.print_exc()
+            return 2
+        last = inside[-1]
+        caller = next((f for f in reversed(tb) if not os.path.realpath(f.filename).startswith(root)), None)
+        where = f'{os.path.relpath(os.path.realpath(last.filename), root)}:{last.lineno} ({last.name})'
+        res.violation('failing-input', f'the implementation raises {type(e).__name__}: {str(e)[:160]} at {where} on an input generated by the check '
+                      f'(harness frame {os.path.basename(caller.filename)}:{caller.lineno} {caller.name})' if caller else f'the implementation raises {type(e).__name__} at {where}',
+                      {'request': {'seed': seed, 'tier': tier, 'raised_at': where, 'exception': type(e).__name__, 'message': str(e)[:300],
+                                   'harness_frame': f'{os.path.basename(caller.filename)}:{caller.lineno}' if caller else None,
+                                   'how': f'VERIF_SEED={seed} ./check {pid} --tier {tier} re-generates the same input'}},
+                      key='impl-raises:' + type(e).__name__)
 
     # 5. verdict
     known = common.load_known()
